@@ -250,14 +250,15 @@ impl SeqSpec for Seq {
 }
 
 pub fn run(rep: &mut Report) {
-    let q = rep.quick();
-    let dl = lattice::dl(if q { 8 } else { 64 }, !q);
+    let deep = !rep.quick();
+    let q = false; // the former thorough parameters are cheap enough for the quick tier
+    let dl = lattice::dl(if deep { 256 } else { 64 }, !q);
     let dl_pairs = if q { lattice::dl(4, false) } else { dl.clone() };
     let kl = lattice::kl();
     rep.bound("DL_size", dl.len() as u64);
     rep.bound("DL_pair_axis_size", dl_pairs.len() as u64);
     rep.bound("KL_size", kl.len() as u64);
-    rep.bound("dense_window_ns", if q { 8 } else { 64 });
+    rep.bound("dense_window_ns", if deep { 256 } else { 64 });
     rep.rule = "Mode B: all ordered pairs of the duration lattice DL (century anchors x offsets, dense windows round 0, +-1..3 centuries, MIN, MAX, i64 limits) under + - += -=; DL x KL under *, / (both operand orders); DL x 9 units; neg/abs on DL. Mode A: stateright BFS over operation sequences from 6 initial states. Oracle: i128 count + clamp. Non-trivial = carry/borrow across a century boundary, operands of different sign, true result outside [MIN,MAX], or an operand in century -32768/-1/32767 (for * and /: operand below -1 century, negative factor, saturation or inexact division).".into();
     rep.assumptions = vec![
         "Duration::from_parts(c, n) with n < one century and Duration::to_parts() are exact (cross-checked by C02)".into(),
@@ -289,7 +290,7 @@ pub fn run(rep: &mut Report) {
             judge_unit(op, d[(i / 9) as usize], UNITS[(i % 9) as usize], out);
         });
     }
-    let depth = if q { 3 } else { 4 };
+    let depth = if deep { 5 } else { 4 };
     rep.bound("seq_depth", depth as u64);
     let spec = Seq { acts: seq_alphabet(), inits: vec![0, DMIN, DMAX, -1, -NPC, -2 * NPC + NPC - 1], depth };
     rep.bound("seq_alphabet", spec.acts.len() as u64);
